@@ -698,7 +698,7 @@ func dumpClause(c *ldmodel.Clause) WClause {
 	ctor, arg := refCtorFor(c.Attribute)
 	w := WClause{CK: string(c.ContextKind), Attr: dumpRef(c.Attribute, ctor, arg), Op: string(c.Op),
 		Vals: jvsFromLD(c.Values), Neg: c.Negate}
-	hasV, vals, hasM, keys := ldmodel.VerifClausePreprocessed(c)
+	hasV, vals, hasM, keys := hookClausePreprocessed(c)
 	if hasV {
 		w.PV = []WPreVal{}
 		for _, p := range vals {
@@ -776,7 +776,7 @@ func nonNilStrs(s []string) []string {
 func dumpTargets(ts []ldmodel.Target) []WTarget {
 	out := make([]WTarget, len(ts))
 	for i := range ts {
-		has, keys := ldmodel.VerifTargetMap(&ts[i])
+		has, keys := hookTargetMap(&ts[i])
 		out[i] = WTarget{CK: string(ts[i].ContextKind), Vals: nonNilStrs(ts[i].Values), V: ts[i].Variation}
 		if has {
 			out[i].PM = nonNilStrs(keys)
@@ -811,7 +811,7 @@ func dumpFlag(f *ldmodel.FeatureFlag, form string) WFlag {
 func dumpSegTargets(ts []ldmodel.SegmentTarget) []WSegTarget {
 	out := make([]WSegTarget, len(ts))
 	for i := range ts {
-		has, keys := ldmodel.VerifSegmentTargetMap(&ts[i])
+		has, keys := hookSegmentTargetMap(&ts[i])
 		out[i] = WSegTarget{CK: string(ts[i].ContextKind), Vals: nonNilStrs(ts[i].Values)}
 		if has {
 			out[i].PM = nonNilStrs(keys)
@@ -825,7 +825,7 @@ func dumpSegment(s *ldmodel.Segment, form string) WSegment {
 		IncC: dumpSegTargets(s.IncludedContexts), ExcC: dumpSegTargets(s.ExcludedContexts), Salt: s.Salt,
 		Unb: s.Unbounded, UnbK: string(s.UnboundedContextKind), Version: s.Version, Gen: fromOptInt(s.Generation),
 		Deleted: s.Deleted, Form: form, Rules: []WSegRule{}}
-	hasI, inc, hasE, exc := ldmodel.VerifSegmentMaps(s)
+	hasI, inc, hasE, exc := hookSegmentMaps(s)
 	if hasI {
 		w.IncM = nonNilStrs(inc)
 	}
